@@ -83,6 +83,9 @@ add("cv_2rd", ["C04", "C01"], "q", progs=[P("R", cvw(dl=1), "RU"), P("R", cvw(dl
 # nsync_cv_signal wakes a reader-mode waiter and, with it, the nsync_wait_n waiter queued behind it, whose deadline can end the call at any point
 add("wn_rd_g", ["C13", "C04", "C11"], "q", progs=[P("R", cvw(), "RU"), P("G1", "L", op("waitn", dl=1), "U"), P("G2", "S")], NV=1, MaxNow=1)
 add("wn_rdl_g", ["C13", "C04", "C11"], "t", progs=[P("R", cvw(), "RU"), P("G1", "L", wnl(v=1, dl=1), "U"), P("G2", "S")], NV=1, MaxNow=1)
+# nsync_wait_n on the cv AND the cancel note, with the caller's mutex: signal vs notify vs deadline
+add("wn_note", ["C11", "C04", "C05", "C13"], "q", progs=[P("L", op("waitn", dl=1, cn=True), "U"), P("L", "S", "U"), P("N")], NV=1, MaxNow=1)
+add("wn_note0", ["C11", "C05"], "q", progs=[P("N", "L", op("waitn", cn=True), "U"), P("L", op("waitn", cn=True), "U")], NV=1)
 add("wn_mixed", ["C04", "C11", "C13"], "t", progs=[P("L", wnl(v=1, dl=1), "U"), P("L", cvl(v=1), "U"), P("L", "set11", "U", "B")], NV=1, MaxNow=1)
 # ---- conditional critical sections (C06 C05 C01) ----
 add("mw_1", ["C06"], "q", progs=[P("L", mwt(1), "U"), P("L", "set11", "U")], NV=1, conds=C1)
